@@ -181,6 +181,8 @@ def sx_op(op):
         return "(enqueue (e %d %d))" % (op[1], op[2])
     if k in ("drain", "drain1"):
         return "(%s %s %s)" % (k, nums(op[1]), sx_plan(op[2]))
+    if k == "reset":
+        return "(reset)"
     raise ValueError(op)
 
 def txt_plan(plan):
@@ -209,6 +211,8 @@ def txt_op(op):
         return "D | %s | %s" % (nums(op[1]), txt_plan(op[2]))
     if k == "drain1":
         return "D1 | %s | %s" % (nums(op[1]), txt_plan(op[2]))
+    if k == "reset":
+        return "RESET | |"
     raise ValueError(op)
 
 # ----------------------------------------------------------------------------------------------
@@ -412,3 +416,14 @@ def supported(md, cfgname):
         if has_compl and any(m["irows"] for _, m in ms):
             return False      # back favor_compile_time: completion event + a machine's own internal table does not compile
     return True
+
+
+def adapt(md, cfgname):
+    """a variant of the definition inside what the configuration accepts: the machines' own internal tables are
+    dropped where the library cannot compile them (back11 always; back favor_compile_time together with completion)"""
+    if supported(md, cfgname):
+        return md
+    md2 = copy.deepcopy(md)
+    for _, m in walk(md2["root"]):
+        m["irows"] = []
+    return md2 if supported(md2, cfgname) else None
